@@ -8,7 +8,7 @@ CONSTANTS
   PadSizes = {0, 1}
   Incs = {1, 3}
   InitWins = {1, 5}
-  MaxFrames = {3}
+  MaxFrames = {1, 3}
   MaxSend = 2
   MaxCtl = 2
   OutCap = 4
@@ -21,5 +21,6 @@ CONSTANTS
   BugPadCredit = FALSE
   EncodeAtEnqueue = FALSE
   BugZeroCostHeld = FALSE
+  SplitOnlyAtEnqueue = FALSE
 INVARIANTS WithinGrant WithinMaxFrame CreditReturned NoEligibleQueued LedgerAgrees PrefixFidelity HpackInOrder
 CHECK_DEADLOCK FALSE
